@@ -301,6 +301,30 @@ func mutateK(r *rand.Rand, kind string, x kIn) (kIn, string) {
 		}
 		return y, "object ids"
 	case 12:
+		if len(y.Users) > 0 && chance(r, 0.6) {
+			// one entry changes only in its relation part (group:1 vs group:1#member) or only in its object
+			i := r.Intn(len(y.Users))
+			switch {
+			case y.Users[i].Rel != "" && chance(r, 0.5):
+				y.Users[i].Rel = ""
+			case y.Users[i].Rel != "":
+				y.Users[i].Rel += "x"
+			case chance(r, 0.5):
+				y.Users[i].Rel = "member"
+			default:
+				y.Users[i].O += "x"
+			}
+			dup := false
+			for j := range y.Users {
+				if j != i && y.Users[j] == y.Users[i] {
+					dup = true
+				}
+			}
+			if !dup {
+				return y, "user filter entry"
+			}
+			y.Users = append([]kUser{}, x.Users...)
+		}
 		y.Users = append(y.Users, kUser{O: "user:zz"})
 		y.Restr = append(y.Restr, kRestr{T: "folder", Rel: "viewer"})
 		return y, "user filter / restrictions"
